@@ -689,7 +689,7 @@ class HyASTCompiler:
             value
             + ret
             + (asty.Interpolation if fcomponent.is_tstring else asty.FormattedValue)(
-                fcomponent, value=value.expr, conversion=conversion, format_spec=spec,
+                fcomponent, value=value.force_expr, conversion=conversion, format_spec=spec,
                 **(dict(str=fcomponent.expression) if fcomponent.is_tstring else {}),
             )
         )
